@@ -3,6 +3,7 @@ package main
 // SSA (go/ssa, NaiveForm) -> IL translation.
 
 import (
+	"strconv"
 	"os"
 	"fmt"
 	"go/constant"
@@ -1691,10 +1692,24 @@ func (tr *Trans) atLine(fr *Frame, ins ssa.Instruction) {
 		}
 		// the anchor line: first line of the function at or after its start that contains the text
 		anchor := 0
-		for i := fstart; i <= len(lines); i++ {
-			if strings.Contains(lines[i-1], cl.Callee) {
-				anchor = i
-				break
+		text, nth := cl.Callee, 1
+		if k := strings.LastIndex(text, "#"); k > 0 {
+			// "text#n": the n-th line of the function that contains the text
+			if n, err := strconv.Atoi(text[k+1:]); err == nil && n >= 1 {
+				text, nth = text[:k], n
+			}
+		}
+		fend := len(lines)
+		if syn := fr.fn.Syntax(); syn != nil {
+			fend = tr.eng.fset.Position(syn.End()).Line
+		}
+		for i := fstart; i <= fend && i <= len(lines); i++ {
+			if strings.Contains(lines[i-1], text) {
+				nth--
+				if nth == 0 {
+					anchor = i
+					break
+				}
 			}
 		}
 		if anchor == 0 {
